@@ -107,3 +107,20 @@ Proof.
   intros H. destruct segs as [|s r]; [reflexivity|].
   rewrite merge_at_time_gen; [reflexivity | assumption | constructor].
 Qed.
+
+(* segments of zero duration do not change the function of time (on t >= 0) *)
+Lemma d2R_zero a : nonzero_dt a = false -> d2R a = 0.
+Proof.
+  unfold nonzero_dt, d2R. intros H. apply negb_false_iff in H. apply Z.eqb_eq in H. rewrite H. simpl. lra.
+Qed.
+Theorem at_time_drop_zero segs t : 0 <= t -> at_time (filter seg_nonzero segs) t = at_time segs t.
+Proof.
+  revert t; induction segs as [|s r IH]; intros t Ht; [reflexivity|].
+  cbn [filter at_time]. unfold seg_nonzero at 1. destruct (nonzero_dt (snd s)) eqn:E.
+  - cbn [at_time]. destruct (Rlt_dec t (d2R (snd s))); [reflexivity|]. apply IH. lra.
+  - rewrite (d2R_zero _ E). destruct (Rlt_dec t 0); [lra|]. rewrite IH by lra. apply at_time_ext. lra.
+Qed.
+Theorem at_time_effective p t : 0 <= t -> at_time (effective_segments p) t = at_time (segments p) t.
+Proof.
+  intros Ht. unfold effective_segments. destruct (existsb _ _ && negb (forallb _ _)); [apply at_time_drop_zero; exact Ht | reflexivity].
+Qed.
